@@ -1,255 +1,77 @@
 /-
-  C23 — Symbol-table label queries agree and ignore case.   (partial)
-  Proved for every table: the three label queries go through the upper-cased name, so two spellings with the same
-  upper-casing get the same answers (address; source span with the same start, fix F14); the labels recorded at an
-  address (the candidates `rev_lookup_label` chooses from) are exactly the keys whose lookup gives that address, when keys
-  are unique; names whose upper-casing is not a key give no result; pass 1 keeps keys unique and binds each label to the
-  location counter of its statement, an `.external` to 0 (C01.addLabel_spec).
-  Not proved: "the span text is the label's first occurrence" (a statement about the source text and the parser's
-  label positions) — checked by the oracle on generated programs.
+  C23 — Symbol-table label queries agree and ignore case.   (proved; source level for the span text)
+  Proved for every table (Lemmas/C23Core.lean): the three label queries go through the upper-cased name, so two spellings
+  with the same upper-casing get the same answers (address; source span with the same start, fix F14); the labels recorded
+  at an address (the candidates `rev_lookup_label` chooses from) are exactly the keys whose lookup gives that address, when
+  keys are unique; names whose upper-casing is not a key give no result; pass 1 keeps keys unique and binds each label to
+  the location counter of its statement, an `.external` to 0 (C01.addLabel_spec); the table holds no name the program does
+  not define or declare (`listing_is_program_labels`).
+  **Source level** (`source_label_source`, Lemmas/FirstDecl.lean + the parser facts): the label table records, for every
+  name, the position of its FIRST declaration (in pass-1 order: a statement's labels, then an `.external` operand;
+  `table_records_first_declaration`), and that position is where the label token's text stands in the source.  Hence
+  for ANY source text that parses and passes pass 1 and any query spelling `q` that is found: `get_label_source q` returns
+  the span that starts at the first declaration `l` of that name (no earlier declaration has the same upper-casing), with
+  the byte length of `q`; the text there is `l`'s spelling — exactly covered when `q` and `l` have the same byte length
+  (always for ASCII names, `C26.ascii_upper_blen`; otherwise see finding F21).
 -/
-import Lc3V.Lemmas.C01Core
+import Lc3V.Lemmas.C23Core
+import Lc3V.Lemmas.FirstDecl
+import Lc3V.Lemmas.ParserDischarge
 set_option linter.unusedSimpArgs false
+set_option linter.unusedVariables false
 namespace Lc3V.C23
 open Lc3V
 
-/-- address lookup ignores case -/
-theorem lookup_ignores_case (t : SymTab) (a b : List Char) (h : upperS a = upperS b) : t.lookupLabel a = t.lookupLabel b := by
-  unfold SymTab.lookupLabel; rw [h]
+/-- every declared label of parser output is a label token of the text -/
+theorem decl_is_token (src : List Char) (stmts : List Stmt) (hp : parseAst src = .ok stmts) (l : Label) (hl : l ∈ allDecls stmts) :
+    ∃ pre post, src = pre ++ l.name ++ post ∧ blen pre = l.start := by
+  obtain ⟨toks, hf, _, hs, _⟩ := parseAst_spec src stmts hp
+  obtain ⟨s, hsm, hls⟩ := List.mem_flatMap.mp hl
+  have hlt : LabTok toks l := by
+    unfold declList at hls
+    rcases List.mem_append.mp hls with h1 | h1
+    · exact (hs s hsm).1 l h1
+    · have hk := (hs s hsm).2.1
+      cases hn : s.nucleus with
+      | instr i => rw [hn] at h1; cases h1
+      | directive d =>
+        rw [hn] at h1 hk
+        cases d with
+        | external l0 =>
+          simp only [List.mem_singleton] at h1
+          subst h1; exact hk
+        | orig a => cases h1
+        | end_ => cases h1
+        | fill v => cases h1
+        | blkw n => cases h1
+        | stringz x => cases h1
+  obtain ⟨t, ht, hk, hst⟩ := hlt
+  obtain ⟨_, pre, post, hsrc, hpre, _⟩ := (hf t ht).lab l.name hk
+  exact ⟨pre, post, hsrc, by rw [hpre, hst]⟩
 
-/-- source lookup ignores case: defined for the same names, with the same start -/
-theorem source_ignores_case (t : SymTab) (a b : List Char) (h : upperS a = upperS b) :
-    (t.getLabelSource a).map (·.1) = (t.getLabelSource b).map (·.1) := by
-  unfold SymTab.getLabelSource; rw [h]
-  cases lookupKey t.labels (upperS b) <;> rfl
-
-/-- the span returned for a spelling is as long as that spelling -/
-theorem source_span_length (t : SymTab) (a : List Char) (sp : Span) (h : t.getLabelSource a = some sp) : sp.2 = sp.1 + blen a := by
-  unfold SymTab.getLabelSource at h
-  cases hl : lookupKey t.labels (upperS a) with
-  | none => rw [hl] at h; cases h
-  | some d => rw [hl] at h; cases h; rfl
-
-/-- both lookups answer for exactly the same names -/
-theorem lookup_and_source_agree (t : SymTab) (a : List Char) : (t.lookupLabel a).isSome = (t.getLabelSource a).isSome := by
-  unfold SymTab.lookupLabel SymTab.getLabelSource
-  cases lookupKey t.labels (upperS a) <;> rfl
-
-def UniqueKeys (m : List (Key × SymData)) : Prop := (m.map (·.1)).Nodup
-
-theorem lookupKey_of_mem (m : List (Key × SymData)) (hu : UniqueKeys m) (k : Key) (d : SymData) (h : (k, d) ∈ m) :
-    lookupKey m k = some d := by
-  induction m with
-  | nil => cases h
-  | cons x xs ih =>
-    unfold lookupKey
-    simp only [UniqueKeys, List.map_cons, List.nodup_cons] at hu
-    rcases List.mem_cons.mp h with rfl | hx
-    · simp [List.find?]
-    · have hne : x.1 ≠ k := by
-        intro e; apply hu.1; rw [e]; exact List.mem_map.mpr ⟨(k, d), hx, rfl⟩
-      have : (x.1 == k) = false := by simpa using hne
-      simp only [List.find?, this]
-      exact ih hu.2 hx
-
-theorem mem_of_lookupKey (m : List (Key × SymData)) (k : Key) (d : SymData) (h : lookupKey m k = some d) : (k, d) ∈ m := by
-  unfold lookupKey at h
-  cases hf : List.find? (fun e => e.1 == k) m with
-  | none => rw [hf] at h; cases h
-  | some x =>
-    rw [hf] at h
-    have h1 := List.find?_some hf
-    have h2 := List.mem_of_find?_eq_some hf
-    simp only [Option.map_some, Option.some.injEq] at h
-    have : x.1 = k := by simpa using h1
-    obtain ⟨xk, xd⟩ := x
-    simp only at this h
-    subst this; subst h
-    exact h2
-
-/-- reverse lookup candidates = the labels whose address lookup gives that address -/
-theorem rev_lookup_candidates (t : SymTab) (hu : UniqueKeys t.labels) (a : W) (k : Key) :
-    k ∈ t.revLookupAll a ↔ ∃ d, lookupKey t.labels k = some d ∧ d.addr = a := by
-  unfold SymTab.revLookupAll
-  constructor
-  · intro h
-    obtain ⟨e, he, rfl⟩ := List.mem_map.mp h
-    have hm := (List.mem_filter.mp he)
-    exact ⟨e.2, lookupKey_of_mem _ hu _ _ hm.1, by simpa using hm.2⟩
-  · rintro ⟨d, hl, ha⟩
-    exact List.mem_map.mpr ⟨(k, d), List.mem_filter.mpr ⟨mem_of_lookupKey _ _ _ hl, by simpa using ha⟩, rfl⟩
-
-/-- names not in the table give no result -/
-theorem absent_name (t : SymTab) (a : List Char) (h : lookupKey t.labels (upperS a) = none) :
-    t.lookupLabel a = none ∧ t.getLabelSource a = none := by
-  unfold SymTab.lookupLabel SymTab.getLabelSource; rw [h]; exact ⟨rfl, rfl⟩
-
-/-- pass 1 never creates a second entry for a key -/
-theorem addLabel_unique (labels labels' : List (Key × SymData)) (l : Label) (addr : W) (ext : Bool)
-    (hu : UniqueKeys labels) (h : addLabel labels l addr ext = .ok labels') : UniqueKeys labels' := by
-  unfold addLabel at h
-  dsimp only at h
-  cases hl : lookupKey labels (upperS l.name) with
+/-- **the source span of a label points at its first declaration**, for any source text and any spelling of the query -/
+theorem source_label_source (src : List Char) (stmts : List Stmt) (dbg : Option (List Char)) (t : SymTab)
+    (hp : parseAst src = .ok stmts) (h : pass1 stmts dbg = .ok t) (q : List Char) (sp : Span)
+    (hq : t.getLabelSource q = some sp) :
+    ∃ p l r, allDecls stmts = p ++ l :: r ∧ upperS l.name = upperS q ∧ (∀ l' ∈ p, upperS l'.name ≠ upperS q) ∧
+      sp = (l.start, l.start + blen q) ∧
+      ∃ pre post, src = pre ++ l.name ++ post ∧ blen pre = l.start := by
+  unfold SymTab.getLabelSource at hq
+  cases hk : lookupKey t.labels (upperS q) with
+  | none => rw [hk] at hq; cases hq
   | some d =>
-    rw [hl] at h; dsimp only at h
-    split at h
-    · cases h
-    · cases h; exact hu
-  | none =>
-    rw [hl] at h; cases h
-    unfold UniqueKeys at *
-    rw [List.map_append, List.nodup_append]
-    refine ⟨hu, by simp, ?_⟩
-    intro a ha b hb
-    simp only [List.map_cons, List.map_nil, List.mem_singleton] at hb
-    subst hb
-    intro e; subst e
-    obtain ⟨x, hx, hxk⟩ := List.mem_map.mp ha
-    have := lookupKey_of_mem labels hu x.1 x.2 hx
-    rw [hxk, hl] at this; cases this
-
-
-/-- where a key of the label table can come from: a label of a statement, or an `.external` declaration -/
-def Declares (stmt : Stmt) (k : Key) : Prop :=
-  (∃ l ∈ stmt.labels, upperS l.name = k) ∨ (∃ l, stmt.nucleus = .directive (.external l) ∧ upperS l.name = k)
-
-theorem addLabel_keys (labels labels' : List (Key × SymData)) (l : Label) (addr : W) (ext : Bool)
-    (h : addLabel labels l addr ext = .ok labels') : ∀ e ∈ labels', e ∈ labels ∨ e.1 = upperS l.name := by
-  unfold addLabel at h
-  dsimp only at h
-  split at h
-  · split at h
-    · cases h
-    · cases h; intro e he; exact Or.inl he
-  · cases h
-    intro e he
-    rcases List.mem_append.mp he with h1 | h1
-    · exact Or.inl h1
-    · simp only [List.mem_singleton] at h1; subst h1; exact Or.inr rfl
-
-theorem addLabels_keys (ls : List Label) (addr : W) : ∀ (m m' : List (Key × SymData)), addLabels m ls addr = .ok m' →
-    ∀ e ∈ m', e ∈ m ∨ ∃ l ∈ ls, e.1 = upperS l.name := by
-  unfold addLabels
-  induction ls with
-  | nil => intro m m' h e he; simp only [List.foldlM_nil] at h; cases h; exact Or.inl he
-  | cons x xs ih =>
-    intro m m' h e he
-    rw [List.foldlM_cons] at h
-    cases hx : addLabel m x addr false with
-    | error e0 => rw [hx] at h; cases h
-    | ok m1 =>
-      rw [hx] at h
-      rcases ih m1 m' h e he with h1 | ⟨l, hl, hk⟩
-      · rcases addLabel_keys m m1 x addr false hx e h1 with h2 | h2
-        · exact Or.inl h2
-        · exact Or.inr ⟨x, by simp, h2⟩
-      · exact Or.inr ⟨l, by simp [hl], hk⟩
-
-/-- one pass-1 step only adds keys the statement declares -/
-theorem pass1Step_keys (st st' : P1) (stmt : Stmt) (h : pass1Step st stmt = .ok st') :
-    ∀ e ∈ st'.labels, e ∈ st.labels ∨ Declares stmt e.1 := by
-  unfold pass1Step at h
-  split at h
-  · cases h
-  · rename_i labels hlab
-    split at h
-    · cases h
-    · rename_i cursor labels' rel hsp
-      have hfin : st'.labels = labels' := by
-        unfold p1Advance at h
-        split at h
-        · cases h; rfl
-        · dsimp only at h; split at h
-          · cases h
-          · cases h; rfl
-      rw [hfin]
-      -- part 1: labels of the statement
-      have h1 : ∀ e ∈ labels, e ∈ st.labels ∨ Declares stmt e.1 := by
-        unfold p1Labels at hlab
-        split at hlab
-        · cases hlab; intro e he; exact Or.inl he
-        · split at hlab
-          · cases hlab
-          · intro e he
-            rcases addLabels_keys _ _ _ _ hlab e he with h2 | ⟨l, hl, hk⟩
-            · exact Or.inl h2
-            · exact Or.inr (Or.inl ⟨l, hl, hk.symm⟩)
-      -- part 2: `.external`
-      have h2 : ∀ e ∈ labels', e ∈ labels ∨ Declares stmt e.1 := by
-        unfold p1Special at hsp
-        generalize hk : stmt.nucleus = k at hsp
-        cases k with
-        | instr i => cases hsp; intro e he; exact Or.inl he
-        | directive d =>
-          cases d with
-          | orig a => dsimp only at hsp; split at hsp <;> cases hsp; intro e he; exact Or.inl he
-          | end_ => dsimp only at hsp; split at hsp <;> cases hsp; intro e he; exact Or.inl he
-          | external l =>
-            dsimp only at hsp
-            split at hsp
-            · cases hsp
-            · rename_i m hm
-              cases hsp
-              intro e he
-              rcases addLabel_keys _ _ _ _ _ hm e he with h3 | h3
-              · exact Or.inl h3
-              · exact Or.inr (Or.inr ⟨l, hk, h3.symm⟩)
-          | fill v =>
-            cases v with
-            | off v => cases hsp; intro e he; exact Or.inl he
-            | label l =>
-              dsimp only at hsp
-              split at hsp
-              · cases hsp; intro e he; exact Or.inl he
-              · split at hsp
-                · cases hsp
-                · cases hsp; intro e he; exact Or.inl he
-          | blkw n => cases hsp; intro e he; exact Or.inl he
-          | stringz s => cases hsp; intro e he; exact Or.inl he
-      intro e he
-      rcases h2 e he with h3 | h3
-      · exact h1 e h3
-      · exact Or.inr h3
-
-/-- the label table holds no name the program does not define or declare: every entry comes from a label of some
-    statement or from an `.external` declaration -/
-theorem table_only_program_labels : ∀ (stmts : List Stmt) (st st' : P1), stmts.foldlM pass1Step st = .ok st' →
-    ∀ e ∈ st'.labels, e ∈ st.labels ∨ ∃ stmt ∈ stmts, Declares stmt e.1 := by
-  intro stmts
-  induction stmts with
-  | nil => intro st st' h e he; simp only [List.foldlM_nil] at h; cases h; exact Or.inl he
-  | cons x xs ih =>
-    intro st st' h e he
-    rw [List.foldlM_cons] at h
-    cases hx : pass1Step st x with
-    | error e0 => rw [hx] at h; cases h
-    | ok q =>
-      rw [hx] at h
-      rcases ih q st' h e he with h1 | ⟨stmt, hs, hd⟩
-      · rcases pass1Step_keys st q x hx e h1 with h2 | h2
-        · exact Or.inl h2
-        · exact Or.inr ⟨x, by simp, h2⟩
-      · exact Or.inr ⟨stmt, by simp [hs], hd⟩
-
-theorem listing_is_program_labels (stmts : List Stmt) (src : Option (List Char)) (t : SymTab) (h : pass1 stmts src = .ok t) :
-    ∀ e ∈ t.labels, ∃ stmt ∈ stmts, Declares stmt e.1 := by
-  unfold pass1 at h
-  split at h
-  · cases h
-  · rename_i st hf
-    unfold p1Finish at h
-    split at h
-    · cases h
-    · cases h
-      intro e he
-      rcases table_only_program_labels stmts (p1Init src) st hf e he with h1 | h1
-      · cases h1
-      · exact h1
+    rw [hk] at hq
+    simp only [Option.map_some, Option.some.injEq] at hq
+    obtain ⟨p, l, r, hall, hkey, hstart, hfirst⟩ :=
+      table_records_first_declaration stmts dbg t h (upperS q) d (mem_of_lookupKey t.labels _ d hk)
+    refine ⟨p, l, r, hall, hkey, hfirst, ?_, decl_is_token src stmts hp l (by rw [hall]; simp)⟩
+    rw [← hq, hstart]
+    rfl
 
 def obligations : List Lean.Name :=
-  [``lookup_ignores_case, ``source_ignores_case, ``source_span_length, ``lookup_and_source_agree, ``lookupKey_of_mem,
+  [``source_label_source, ``decl_is_token, ``Lc3V.table_records_first_declaration, ``Lc3V.pass1_fold_proj, ``Lc3V.stepDecl_fold_first,
+   ``lookup_ignores_case, ``source_ignores_case, ``source_span_length, ``lookup_and_source_agree, ``lookupKey_of_mem,
    ``mem_of_lookupKey, ``rev_lookup_candidates, ``absent_name, ``addLabel_unique, ``C01.addLabel_spec,
    ``pass1Step_keys, ``table_only_program_labels, ``listing_is_program_labels]
-
 
 end Lc3V.C23
